@@ -41,7 +41,7 @@ PLAN = dict(
     level_note="trusts the generator's model; one known finding (K2) is reported as KNOWN-FINDING and not counted as a violation",
     not_explored=[
         "near-miss lines: a supported keyword and a parenthesised name but missing or surplus fields ('SHA1 (x)', 'Size (x) = 5', a bare 'SHA1', a third field other than '=')",
-        "upper/lower-case variants of algorithm keywords and of 'Size'; upper-case or empty hashes; '+5' / '007' sizes; two Size lines for one file",
+        "upper/lower-case variants of algorithm keywords and of 'Size'; empty or non-hex hashes (upper- and mixed-case hex is used); '+5' / '007' sizes; two Size lines for one file",
         "names whose kind depends on the reading of the rule ('dir/patch-aa', 'emul-patch-x', 'patch-x.tar'); names with white space, 0x0B, 0x0C",
         "shared-tail pairs of different kinds: two names with the same last component have the same kind under the last-component reading, so a differing kind needs a name on which the readings differ ('d/patch-aa')",
         "texts of more than 300 files",
